@@ -312,7 +312,7 @@ pub(crate) fn vkc07_crc_gate_len4() { crc_gate_len::<4>(); }
 #[cfg_attr(kani, kani::stub(alloc::fmt::format, fmt_stub))]
 #[cfg_attr(kani, kani::stub(CompilerSourceRange::here, here_stub))]
 #[cfg_attr(kani, kani::stub(crc32fast::hash, crc32fast_hash_stub))]
-pub(crate) fn vkc07_crc_gate_len7() { crc_gate_len::<7>(); }
+pub(crate) fn vkc07_crc_gate_len5() { crc_gate_len::<5>(); }
 
 // every flipped bit / burst of <= 32 bits changes acceptance: machine-checked
 // on the reference CRC for payloads <= 6 bytes (bounded), mathematics beyond.
@@ -367,4 +367,4 @@ vk_registry!{ vkreplay_c07_program;
   vkc07_opcode_from_u8, vkc07_typetag_from_u16, vkc07_instr_constload, vkc07_instr_nullop, vkc07_instr_unop, vkc07_instr_binop,
   vkc07_instr_ternop, vkc07_instr_quadop, vkc07_instr_vararg, vkc07_instr_ret_then_constload, vkc07_instr_ret_last,
   vkc07_instr_truncated_binop_cut5, vkc07_instr_truncated_binop_cut12, vkc07_instr_truncated_binop_cut20, vkc07_decode_instructions_any_bytes, vkc07_const_entry_roundtrip,
-  vkc07_parse_const_entries_short_input, vkc07_header_roundtrip, vkc07_crc_gate_len3, vkc07_crc_gate_len4, vkc07_crc_gate_len7, vkc07_crc_burst_detected, vkc07_load_requires_crc }
+  vkc07_parse_const_entries_short_input, vkc07_header_roundtrip, vkc07_crc_gate_len3, vkc07_crc_gate_len4, vkc07_crc_gate_len5, vkc07_crc_burst_detected, vkc07_load_requires_crc }
